@@ -263,7 +263,7 @@ func VerifH_C13_Parts() {
 	var pv int64
 	if isLength {
 		// a length is a concrete number of characters: solver-chosen among 0..9 (quick: 4 of them)
-		p := vrt.Choice("probe", 10)
+		p := vrt.Choice("probelen", 10)
 		if vrt.Param("probes", 10) < 10 {
 			vrt.Assume(p == 0 || p == 3 || p == 6 || p == 8)
 		}
